@@ -81,6 +81,15 @@ class _Extras:
     def _hidden(self) -> int:
         return 1
 
+    def scale(self, by: 'Literal["10%", "50%"]' = "10%") -> str:
+        """An annotation is shown in the help of its parameter as it is written - percent signs included."""
+        return "by " + str(by)
+
+    @staticmethod
+    def units(n: int = 1) -> str:
+        """A public static method is a public method: a command like any other."""
+        return "unit" * n
+
     @classmethod
     def make(cls) -> str:
         """A bound class method is not a plain function: not a command."""
@@ -95,7 +104,7 @@ class SimplePlus(_Extras, SimpleTaskPool):
     """SimpleTaskPool with additional public members."""
 
 
-# ---- witness classes of the known findings F1, F2, F4: public members that break the control parser / session
+# ---- witness classes of the known findings F1, F2, F4, F6: public members that break the control parser / session
 class HelpParamPool(TaskPool):
     """F1: an optional parameter called `help` — its long option `--help` clashes with every parser's own `--help`."""
 
@@ -127,3 +136,14 @@ class CommandParamPool(TaskPool):
 
 def journal(pool):
     return list(pool.__dict__.get("_journal", []))
+
+
+class AliasPool(TaskPool):
+    """F6: a public method under two names — the command is named after `function.__name__`, not after the member, so
+    both members ask for the sub-command `halt`."""
+
+    def halt(self) -> str:
+        """Halts."""
+        return "halted"
+
+    stop_now = halt
